@@ -44,7 +44,8 @@ def make_secure(nfut=6):
     log = []
     conn = _Conn(log)
     p = SecureHomeKitProtocol(conn, A2C, C2A)
-    p.result_cbs = [_StubFut(log) for _ in range(nfut)]
+    group = []
+    p.result_cbs = type(p.result_cbs)(_StubFut(log, i, group) for i in range(nfut))
     p._vt_log = log
     p._vt_conn = conn
     return p
